@@ -2,6 +2,7 @@ import Driver.Util
 import F3.Model.Participant
 import F3.Model.MultiParticipant
 import F3.Model.Valid
+import F3.Model.Power
 /-! Driver for area `gpbft` (C01, C02, C03, C06, C07): replays every honest participant's op trace through
 `F3.Instance.step`, compares effects/progress/return class, and evaluates the property oracles on the
 implementation's own observations (independently of the model). -/
@@ -614,6 +615,17 @@ def step (st : St) (line : String) : St × Verdict :=
         | _ => none) with
     | some es => ({ st with tbl := { entries := es } }, .skip)
     | none => (st, .bad "tbl")
+  | ["pow", ps] =>
+    -- the members' storage powers in table order: the scaled powers every threshold of the run is computed from
+    -- must be the model's scaling of them (gpbft/powertable.go, C08) — consensus safety rests on it
+    match parseIntList? ps with
+    | some raw =>
+      match F3.Power.scaled raw with
+      | some (sc, _) =>
+        if sc == st.tbl.entries.map (·.2) then (st, .ok "tbl_scaling")
+        else (st, .oracle s!"C01-power-table-scaling the scaled powers {st.tbl.entries.map (·.2)} of the run's table are not floor(65535*power/total) of the members' powers (expected {sc}): quorum thresholds no longer reflect power")
+      | none => (st, .bad "pow")
+    | none => (st, .bad "pow")
   | "cfg" :: rest =>
     match (getKV rest "look").bind (·.toNat?), (getKV rest "rebimm").bind (·.toNat?), (getKV rest "qto").bind (·.toInt?),
           (getKV rest "to").bind parseIntList?, (getKV rest "reb").bind parseIntList? with
